@@ -210,7 +210,7 @@ def compare_decomposition(S, ctx, segs, ref, m, what, monitor, feature, bound_ex
             ecc = max(nu, nv) / max(min(nu, nv), 1e-300)
             size = max(size, nu, nv)
         # the parameter of a point on a very flat ellipse is ill-conditioned (atan2 of a ratio of the radii)
-        bound = 4 * b_affine(S_, cond) + (2e-9 * size * max(1.0, cond / 10) * max(1.0, ecc / 100.0) if k == "A" else 0.0) + bound_extra
+        bound = 4 * b_affine(S_, cond) + (4e-9 * size * max(1.0, cond / 10) * max(1.0, ecc / 100.0) if k == "A" else 0.0) + bound_extra
         dev = max(math.hypot(a[0] - b[0], a[1] - b[1]) for a, b in zip(got, exp))
         if ctx.see("%s-%s" % (monitor, k), dev / bound) > 1:
             # direction only? the same points in reverse order
